@@ -15,6 +15,7 @@ package main
 
 import (
 	"go/token"
+	"go/types"
 	"sort"
 
 	"golang.org/x/tools/go/ssa"
@@ -92,6 +93,11 @@ type pathAnalysis struct {
 	defers    []*ssa.Defer
 	in        map[*ssa.BasicBlock]tupleSet
 	truncated bool
+	// once: a rule that asks what has certainly happened once the function has been called does not take
+	// the already-done side of a do-it-once guard for a way out (see onceGuardEdge)
+	once     bool
+	onceIdx  int
+	onceInit bool
 }
 
 const maxTuplesPerBlock = 4096
@@ -296,6 +302,18 @@ func dedupTuples(ts []tuple) []tuple {
 
 // flow pushes tuple t (state at end of pred) along edge pred->succ.
 func (pa *pathAnalysis) flow(pred, succ *ssa.BasicBlock, succIdx int, t tuple) (tuple, bool) {
+	if pa.once && pred.Index == 0 {
+		if !pa.onceInit {
+			pa.onceInit = true
+			pa.onceIdx = -1
+			if i, ok := onceGuardEdge(pa.fn); ok {
+				pa.onceIdx = i
+			}
+		}
+		if pa.onceIdx == succIdx {
+			return t, false
+		}
+	}
 	if iff, ok := pred.Instrs[len(pred.Instrs)-1].(*ssa.If); ok && pred.Succs[0] != pred.Succs[1] {
 		switch pa.evalBool(iff.Cond, t) {
 		case 1: // false
@@ -569,4 +587,142 @@ func (pa *pathAnalysis) predicateEffect(call *ssa.Call, outcome bool, ev uint64)
 		return ev
 	}
 	return must
+}
+
+// pkgFunctions: every source function of the package — package-level functions, the methods of its named
+// types and the closures inside them.
+func pkgFunctions(pkg *ssa.Package) []*ssa.Function {
+	var out []*ssa.Function
+	var add func(f *ssa.Function)
+	add = func(f *ssa.Function) {
+		if f == nil || len(f.Blocks) == 0 {
+			return
+		}
+		out = append(out, f)
+		for _, a := range f.AnonFuncs {
+			add(a)
+		}
+	}
+	for _, m := range pkg.Members {
+		switch m := m.(type) {
+		case *ssa.Function:
+			add(m)
+		case *ssa.Type:
+			for _, t := range []types.Type{m.Type(), types.NewPointer(m.Type())} {
+				ms := pkg.Prog.MethodSets.MethodSet(t)
+				for i := 0; i < ms.Len(); i++ {
+					if fo, ok := ms.At(i).Obj().(*types.Func); ok && fo.Pkg() == pkg.Pkg && len(ms.At(i).Index()) == 1 {
+						if f := pkg.Prog.FuncValue(fo); f != nil && f.Synthetic == "" {
+							dup := false
+							for _, o := range out {
+								if o == f {
+									dup = true
+									break
+								}
+							}
+							if !dup {
+								add(f)
+							}
+						}
+					}
+				}
+			}
+		}
+	}
+	return out
+}
+
+// onceGuardEdge: fn is a routine that does its work once — its first test is on an unexported bool field of
+// its receiver / first pointer parameter, the side on which the field is set only returns constants, and the
+// field is set (to true, nowhere else in the package, and never cleared) on the other side, in fn itself:
+//
+//	func (sf *segmentFile) close() error { if sf.closed { return nil }; sf.closed = true; return sf.f.Close() }
+//
+// On the side where the field is set the body has run before, so for a rule that asks what has certainly
+// happened once fn has been called that side is no way out of its own. Returns the index of that successor
+// of the entry block.
+func onceGuardEdge(fn *ssa.Function) (int, bool) {
+	if fn == nil || len(fn.Blocks) == 0 || fn.Pkg == nil {
+		return 0, false
+	}
+	entry := fn.Blocks[0]
+	iff, isIf := entry.Instrs[len(entry.Instrs)-1].(*ssa.If)
+	if !isIf || len(entry.Succs) != 2 {
+		return 0, false
+	}
+	cond, neg := iff.Cond, false
+	if u, isU := cond.(*ssa.UnOp); isU && u.Op == token.NOT {
+		cond, neg = u.X, true
+	}
+	u, isU := cond.(*ssa.UnOp)
+	if !isU || u.Op != token.MUL || !isBoolType(u) {
+		return 0, false
+	}
+	fa, isFA := u.X.(*ssa.FieldAddr)
+	if !isFA {
+		return 0, false
+	}
+	if _, isPrm := fa.X.(*ssa.Parameter); !isPrm {
+		return 0, false
+	}
+	for _, in := range entry.Instrs {
+		switch in.(type) {
+		case ssa.CallInstruction, *ssa.Store:
+			return 0, false
+		}
+	}
+	pt, isPtr := fa.X.Type().Underlying().(*types.Pointer)
+	if !isPtr {
+		return 0, false
+	}
+	st, isSt := pt.Elem().Underlying().(*types.Struct)
+	if !isSt || st.Field(fa.Field).Exported() {
+		return 0, false
+	}
+	setIdx := 0
+	if neg {
+		setIdx = 1
+	}
+	// the side where the field is set: nothing but a return of constants
+	sb := entry.Succs[setIdx]
+	if len(sb.Instrs) != 1 {
+		return 0, false
+	}
+	ret, isRet := sb.Instrs[0].(*ssa.Return)
+	if !isRet {
+		return 0, false
+	}
+	for _, r := range ret.Results {
+		if _, isC := r.(*ssa.Const); !isC {
+			return 0, false
+		}
+	}
+	// every store to the field: in fn, of true, on the other side
+	other := entry.Succs[1-setIdx]
+	stores := 0
+	for _, g := range pkgFunctions(fn.Pkg) {
+		bad := false
+		eachInstr(g, func(b *ssa.BasicBlock, in ssa.Instruction) {
+			s, ok := in.(*ssa.Store)
+			if !ok {
+				return
+			}
+			sfa, ok := s.Addr.(*ssa.FieldAddr)
+			if !ok || sfa.Field != fa.Field || !types.Identical(sfa.X.Type(), fa.X.Type()) {
+				return
+			}
+			if v, isB := constBool(s.Val); g == fn && isB && v && other.Dominates(b) && sameValue(sfa.X, fa.X) {
+				stores++
+				return
+			}
+			bad = true
+		})
+		if bad {
+			return 0, false
+		}
+	}
+	if stores == 0 {
+		return 0, false
+	}
+	return setIdx, true
 }
